@@ -1117,7 +1117,9 @@ class AstEval:
             sym_table_assign = self.global_sym_table
         else:
             sym_table_assign = self.sym_table
-        sym_table_assign[arg.name] = EvalLocalVar(arg.name)
+        if not isinstance(sym_table_assign.get(arg.name), EvalLocalVar):
+            # keep an existing variable: functions defined earlier may already share it
+            sym_table_assign[arg.name] = EvalLocalVar(arg.name)
         if hasattr(metaclass, "__prepare__"):
             sym_table = metaclass.__prepare__(arg.name, tuple(bases), **keywords)
         else:
@@ -1601,7 +1603,8 @@ class AstEval:
             #
             if self.curr_func and arg.id in self.curr_func.global_names:
                 if arg.id in self.global_sym_table:
-                    return self.global_sym_table[arg.id]
+                    val = self.global_sym_table[arg.id]
+                    return val.get() if isinstance(val, EvalLocalVar) else val
                 raise NameError(f"global name '{arg.id}' is not defined")
             #
             # now check in our current symbol table, and then some other places
@@ -1623,7 +1626,9 @@ class AstEval:
             if arg.id in self.global_sym_table:
                 if self.curr_func and arg.id in self.curr_func.local_names:
                     raise UnboundLocalError(f"local variable '{arg.id}' referenced before assignment")
-                return self.global_sym_table[arg.id]
+                # a module-level class is kept in a variable object: a function defined before it sees the class
+                val = self.global_sym_table[arg.id]
+                return val.get() if isinstance(val, EvalLocalVar) else val
             if arg.id in BUILTIN_AST_FUNCS_FACTORY:
                 return BUILTIN_AST_FUNCS_FACTORY[arg.id](self)
             if hasattr(builtins, arg.id) and arg.id not in BUILTIN_EXCLUDE and arg.id[0] != "_":
